@@ -268,3 +268,111 @@ Proof.
   - f_equal. eapply dist_intersect_sound; eassumption.
   - destruct S as [S1 S2]. lia.
 Qed.
+
+(* ------------------------------------------------------------------ round 2: sort.Search, BinSearchInRange,
+   getLIDsBorders, seq.LessOrEqual *)
+Definition zid (x : id) : go_ID := mk_go_ID (fst x) (snd x).
+
+Lemma gen_LessOrEqual_refines : forall a b, go_seq_LessOrEqual (zid a) (zid b) = id_le a b.
+Proof. reflexivity. Qed.
+
+(* the trusted extern sort_Search_loop (GenPrelude.v) follows the model's search_loop whenever the predicate
+   does not panic on the searched interval and the fuel covers the binary logarithm of its width *)
+Lemma sort_Search_loop_model : forall (k : nat) (f : Z -> bool) (F : Z -> outcome bool) lo hi i j v (fuel0 : nat),
+  (forall h, lo <= h < hi -> F h = Val (f h)) -> lo <= i -> j <= hi ->
+  search_loop k f i j = Some v -> j - i < 2 ^ Z.of_nat fuel0 ->
+  sort_Search_loop (S fuel0) F i j = Val v.
+Proof.
+  induction k as [|k IH]; intros f F lo hi i j v fuel0 HF Hlo Hhi Hs Hp; cbn [search_loop] in Hs; [discriminate|].
+  cbn [sort_Search_loop]. revert Hs.
+  destruct (Z.ltb_spec i j) as [Hlt|Hge]; [|intros Hs; congruence].
+  cbv zeta.
+  pose proof (Z.div_mod (i + j) 2 ltac:(lia)) as Hdm. pose proof (Z.mod_pos_bound (i + j) 2 ltac:(lia)) as Hmb.
+  assert (Hh : i <= (i + j) / 2 < j) by lia.
+  rewrite HF by lia. cbn [bind].
+  destruct fuel0 as [|fuel0]; [change (2 ^ Z.of_nat 0) with 1 in Hp; lia|].
+  rewrite Nat2Z.inj_succ, Z.pow_succ_r in Hp by lia.
+  destruct (f ((i + j) / 2)); intros Hs.
+  - apply (IH f F lo hi); try assumption; lia.
+  - apply (IH f F lo hi); try assumption; lia.
+Qed.
+
+Lemma search_loop_bounds : forall k f i j v, search_loop k f i j = Some v -> i <= j -> i <= v <= j.
+Proof.
+  induction k as [|k IH]; intros f i j v Hs Hij; cbn [search_loop] in Hs; [discriminate|].
+  revert Hs. destruct (Z.ltb_spec i j) as [Hlt|Hge]; [|intros Hs; injection Hs as <-; lia].
+  cbv zeta.
+  pose proof (Z.div_mod (i + j) 2 ltac:(lia)) as Hdm. pose proof (Z.mod_pos_bound (i + j) 2 ltac:(lia)) as Hmb.
+  assert (Hh : i <= (i + j) / 2 < j) by lia.
+  destruct (f ((i + j) / 2)); intros Hs; apply IH in Hs; lia.
+Qed.
+
+Lemma sort_Search_model : forall (f : Z -> bool) (F : Z -> outcome bool) n v,
+  (forall h, 0 <= h < n -> F h = Val (f h)) -> n < 18446744073709551616 ->
+  Model.sort_search n f = Some v -> sort_Search n F = Val v.
+Proof.
+  intros f F n v HF Hn Hs. unfold sort_Search, Model.sort_search in *. change 65%nat with (S 64).
+  apply (sort_Search_loop_model (S (Z.to_nat n)) f F 0 n 0 n v 64%nat HF); try lia; try exact Hs.
+Qed.
+
+(* util.BinSearchInRange as generated (function parameter, function literal, extern sort.Search) = the model's
+   bin_search_in_range (C14_bin_search_spec is about it) for borders that keep the int arithmetic exact *)
+Lemma gen_BinSearchInRange_refines : forall from to (f : Z -> bool) (F : Z -> outcome bool) v,
+  - 4611686018427387904 < from < 4611686018427387904 -> - 4611686018427387904 < to < 4611686018427387904 ->
+  (forall x, from <= x <= to -> F x = Val (f x)) ->
+  bin_search_in_range from to f = Some v ->
+  go_util_BinSearchInRange from to F = Val v.
+Proof.
+  intros from to f F v Hf Ht HF Hs. unfold go_util_BinSearchInRange, bin_search_in_range in *. cbv zeta.
+  destruct (Model.sort_search (to - from + 1) (fun i => f (from + i))) as [k|] eqn:E; [|discriminate].
+  injection Hs as <-.
+  rewrite (i64_small (to - from)), (i64_small (to - from + 1)) by lia.
+  rewrite (sort_Search_model (fun i => f (from + i)) _ (to - from + 1) k); try lia; try exact E.
+  - cbn [bind].
+    assert (Hk : 0 <= k <= Z.max 0 (to - from + 1)).
+    { unfold Model.sort_search in E. destruct (Z_le_gt_dec 0 (to - from + 1)) as [Hn|Hn].
+      - apply search_loop_bounds in E; lia.
+      - destruct (Z.to_nat (to - from + 1)) eqn:En; [|lia]. cbn [search_loop] in E.
+        replace (0 <? to - from + 1) with false in E by lia. injection E as <-. lia. }
+    rewrite i64_small by lia. reflexivity.
+  - intros h Hh. rewrite i64_small by lia. rewrite HF by lia. reflexivity.
+Qed.
+
+(* getLIDsBorders as generated = lids_borders (C14_lid_borders_exact / C14_pruning_is_optimisation are about it):
+   the index is the model's comparison `le` over `len` LIDs; the result is the model's pair converted to uint32 *)
+Definition zix (le : Z -> id -> bool) (len : Z) : ids_index go_ID :=
+  mk_ix go_ID len (fun lid x => le lid (go_ID_MID x, go_ID_RID x)).
+
+Lemma gen_getLIDsBorders_refines : forall le len minMID maxMID a b,
+  0 <= len < 4294967296 -> 0 <= minMID < two64 -> 0 <= maxMID < two64 ->
+  lids_borders le len minMID maxMID = Some (a, b) ->
+  go_processor_getLIDsBorders minMID maxMID (zix le len) = Val (u32 a, u32 b).
+Proof.
+  intros le len minMID maxMID a b Hlen Hmin Hmax Hs. unfold two64 in *.
+  revert Hs. unfold go_processor_getLIDsBorders, lids_borders. cbv zeta.
+  replace (ix_len (zix le len)) with len by reflexivity.
+  destruct (Z.eqb_spec len 0) as [E|E]; [intros Hs; injection Hs as <- <-; reflexivity|].
+  destruct (bin_search_in_range 1 (len - 1) _) as [lo|] eqn:E1; [|discriminate].
+  destruct (bin_search_in_range lo (len - 1) _) as [x|] eqn:E2; [|discriminate].
+  intros Hs; injection Hs as <- <-.
+  assert (Hlo : 1 <= lo <= len).
+  { unfold bin_search_in_range in E1.
+    destruct (Model.sort_search (len - 1 - 1 + 1) _) as [k|] eqn:Ek; [|discriminate].
+    assert (Hk : lo = 1 + k) by congruence. unfold Model.sort_search in Ek. apply search_loop_bounds in Ek; lia. }
+  assert (Hx : lo <= x <= len).
+  { unfold bin_search_in_range in E2.
+    destruct (Model.sort_search (len - 1 - lo + 1) _) as [k|] eqn:Ek; [|discriminate].
+    assert (Hk : x = lo + k) by congruence. unfold Model.sort_search in Ek.
+    destruct (Z_le_gt_dec 0 (len - 1 - lo + 1)) as [Hn|Hn].
+    - apply search_loop_bounds in Ek; lia.
+    - destruct (Z.to_nat (len - 1 - lo + 1)) eqn:En; [|lia]. cbn [search_loop] in Ek.
+      replace (0 <? len - 1 - lo + 1) with false in Ek by lia. injection Ek as <-. lia. }
+  rewrite (i64_small (len - 1)) by lia.
+  erewrite gen_BinSearchInRange_refines; [ |lia|lia| |exact E1].
+  2:{ intros y Hy. unfold ix_le, zix. cbn [ix_le_f go_ID_MID go_ID_RID]. rewrite u32_small by lia. reflexivity. }
+  cbn [bind].
+  erewrite gen_BinSearchInRange_refines; [ |lia|lia| |exact E2].
+  2:{ intros y Hy. unfold ix_le, zix. cbn [ix_le_f]. rewrite u32_small by lia. unfold u64max, two64.
+      destruct (Z.ltb_spec 0 minMID); cbn [go_ID_MID go_ID_RID]; [rewrite u64_small by lia|]; reflexivity. }
+  cbn [bind]. rewrite (i64_small (x - 1)) by lia. reflexivity.
+Qed.
